@@ -168,6 +168,17 @@ func (w *w1) dirtyEvents(fn *ssa.Function, v ssa.Value, d int) []dirtyEvent {
 				if cal == nil || !IsRepoFunc(cal) || cal == V.WriteInode {
 					continue
 				}
+				// a local closure that works on the captured inode: its body belongs to this function
+				if cal.Parent() == fn && d < 5 {
+					for _, cv := range capturedAs(x, cal, v) {
+						for _, ev := range w.dirtyEvents(cal, cv, d+1) {
+							if !w.discharged(cal, cv, ev, d+1) {
+								out = append(out, dirtyEvent{in: in, what: "call of closure " + cal.Name() + " (returns with unwritten changes)"})
+								break
+							}
+						}
+					}
+				}
 				for _, i := range argIndexes(in, v) {
 					if cal == V.bmap && i == 0 {
 						// frozen contract: dirty iff the second result is true
@@ -320,6 +331,9 @@ func ruleW1(c *Ctx, id string) {
 		seenEv := map[string]int{}
 		for _, x := range vs {
 			_, isParam := x.v.(*ssa.Parameter)
+			if fn.Parent() != nil && isFreeVarLoad(x.v) {
+				continue // a captured variable of the enclosing function: judged there, at the closure's call sites
+			}
 			for _, ev := range w.dirtyEvents(fn, x.v, 0) {
 				R.Analysed[FuncName(fn)] = true
 				base := fmt.Sprintf("%s|%s", FuncName(fn), ev.what)
@@ -718,4 +732,53 @@ func ruleW3(c *Ctx, id string) {
 			R.Check(sz == inodesz*8 && addrOK, id, "fstxn.GetInodeLocked|reads the slot WriteInode writes", P.Pos(call.Pos()), "the inode is read through the journal from Inum2Addr(inum), INODESZ*8 bits", "same address function and size", "inode read from a different slot/size than it is written to")
 		}
 	}
+}
+
+
+// isFreeVarLoad: v is (a load of) a variable captured from the enclosing function.
+func isFreeVarLoad(v ssa.Value) bool {
+	if _, ok := v.(*ssa.FreeVar); ok {
+		return true
+	}
+	if u, ok := v.(*ssa.UnOp); ok && u.Op == token.MUL {
+		_, isF := u.X.(*ssa.FreeVar)
+		return isF
+	}
+	return false
+}
+
+// capturedAs: the values inside closure cal (called at call) that denote the
+// enclosing function's inode value v: the free variable bound to v, or the
+// loads of the free variable bound to the cell that holds v.
+func capturedAs(call *ssa.Call, cal *ssa.Function, v ssa.Value) []ssa.Value {
+	mc, _ := call.Call.Value.(*ssa.MakeClosure)
+	if mc == nil {
+		mc, _ = stripConv(call.Call.Value).(*ssa.MakeClosure)
+	}
+	if mc == nil {
+		return nil
+	}
+	var out []ssa.Value
+	for i, fv := range cal.FreeVars {
+		if i >= len(mc.Bindings) {
+			continue
+		}
+		b := mc.Bindings[i]
+		if stripConv(b) == v {
+			out = append(out, fv)
+			continue
+		}
+		if al, ok := b.(*ssa.Alloc); ok {
+			if st := singleStore(al); st != nil && stripConv(st) == v {
+				for _, blk := range cal.Blocks {
+					for _, in := range blk.Instrs {
+						if u, ok := in.(*ssa.UnOp); ok && u.Op == token.MUL && u.X == ssa.Value(fv) {
+							out = append(out, u)
+						}
+					}
+				}
+			}
+		}
+	}
+	return out
 }
